@@ -77,11 +77,15 @@ def recvEvents (c : Nat) (payload : Bytes) : List Event :=
   (chunksOf sliceSize payload).flatMap fun slice =>
     (chunksOf EphVerif.Gen.C25.recvChunk slice).map fun ch => Event.recv c ch
 
-/-- Writable events until every write buffer is empty -/
-def flushAll (σ : State) : State :=
+/-- Writable events until every write buffer is empty; for a stalled client one *partial* write (the kernel takes only
+    part of the buffer — here half — and the rest stays queued) -/
+def flushAll (σ : State) (stalled : List Nat := []) : State :=
   (liveClients σ).foldl (fun σ c =>
     match σ.get c with
-    | some s => if s.writeBuf.isEmpty then σ else step σ (.flush c s.writeBuf.length)
+    | some s =>
+      if s.writeBuf.isEmpty then σ
+      else if stalled.contains c then step σ (.flush c (s.writeBuf.length / 2))
+      else step σ (.flush c s.writeBuf.length)
     | none => σ) σ
 
 structure Line where
@@ -160,15 +164,23 @@ structure St where
   implView : View := []            -- pairing table of the implementation's previous line
   implConnected : List Nat := []   -- clients connected as far as the ops and the implementation's lines say
   pending : List (Nat × Bytes) := []  -- per client: bytes it sent that the implementation still holds unconsumed
+  stalled : List Nat := []            -- clients that are not reading (ops `stall` / `resume`)
+  heldModel : List (Nat × Bytes) := []  -- model: bytes already written towards a stalled client (it has not read them yet)
+  judged : List Nat := []             -- stalled clients that were bridged when they stalled (the monitor follows them)
+  owed : List (Nat × Bytes) := []     -- per judged client: what its partner has sent since, in order
   deriving Inhabited
 
 inductive Op where
   | acc (k : Nat) | snd (k : Nat) (payload : Bytes) | eof (k : Nat) | shw (k : Nat) | rst (k : Nat) | hup (k : Nat) | nop
+  | stall (k : Nat) | resume (k : Nat)
 
 def parseOp (tok : List String) : Option Op :=
   match tok with
   | ["nop"] => some .nop
   | ["acc", k] => k.toNat?.map .acc
+  | ["accs", k] => k.toNat?.map .acc
+  | ["stall", k] => k.toNat?.map .stall
+  | ["resume", k] => k.toNat?.map .resume
   | ["snd", k, p] => match k.toNat?, expandPayload p with
     | some n, some bs => some (.snd n bs)
     | _, _ => none
@@ -186,6 +198,8 @@ def eventsOf : Op → List Event
   | .rst k => [.err k]
   | .hup k => [.err k]
   | .nop => []
+  | .stall _ => []
+  | .resume _ => []
 
 def pendingOf (pending : List (Nat × Bytes)) (k : Nat) : Bytes := (pending.lookup k).getD []
 
@@ -205,14 +219,25 @@ def updatePending (pending : List (Nat × Bytes)) (op : Op) (l : ImplLine) : Lis
 def afterFirstLine (bs : Bytes) : Bytes := (bs.dropWhile (· != 10)).drop 1
 
 /-- C25 clauses, judged on the implementation's own lines -/
-def judgeC25 (before : View) (pending : List (Nat × Bytes)) (op : Op) (l : ImplLine) : String :=
+def judgeC25 (before : View) (pending : List (Nat × Bytes)) (judged : List Nat) (owed : List (Nat × Bytes))
+    (op : Op) (l : ImplLine) : String :=
   let o : Obs String := { rx := l.rx, closed := l.cl }
   if !decide (ClaimUnique l.view) then "viol:claim-unique:a peer is claimed by two connectors at once"
   else if !decide (Symmetric l.view) then "viol:pairing-symmetric:the pairing table is not symmetric"
   else if !decide (BridgePaired l.view) then "viol:bridge-paired:a bridged session has no bridged partner"
   else match op with
+    | .stall _ => if !decide (Quiet o) then "viol:isolation:bytes delivered by a step in which nobody sent anything" else "ok"
+    | .resume k =>
+      if !judged.contains k then "ok"
+      else
+        let due := pendingOf owed k
+        if decide (CatchUp k (if due.isEmpty then none else some (showBytes due)) o) then "ok"
+        else "viol:delivery:a slow reader did not receive exactly what its partner had sent meanwhile (bytes dropped, duplicated or reordered across partial writes)"
     | .snd k p =>
-      if !decide (Delivery before k (if p.isEmpty then none else some (showBytes p)) o) then
+      if before.isBridged k && (match before.partnerOf k with | some t => judged.contains t | none => false) then
+        if decide (Held o) then "ok"
+        else "viol:delivery:bytes for a partner that is not reading were delivered elsewhere or somebody was disconnected"
+      else if !decide (Delivery before k (if p.isEmpty then none else some (showBytes p)) o) then
         "viol:delivery:bytes of a bridged client did not reach exactly its partner, whole and in order"
       else if !decide (Isolation before l.view k o) then
         "viol:isolation:a client other than the sender's bridged partner received bytes"
@@ -265,26 +290,39 @@ def step (which : Which) (st : St) (tok : List String) (_line : String) (impl : 
   match parseOp tok with
   | none => (st, "bad-op", "ok")
   | some op =>
-    -- model
-    let σ0 := { st.σ with out := [] }
-    let σ1 := flushAll ((eventsOf op).foldl Relay.step σ0)
     let known (k : Nat) : Bool := st.accepted.contains k
+    -- model
+    let stalled := match op with
+      | .stall k => if known k && !st.stalled.contains k then k :: st.stalled else st.stalled
+      | .resume k => st.stalled.filter (· != k)
+      | _ => st.stalled
+    let σ0 := { st.σ with out := [] }
+    let σ1 := flushAll ((eventsOf op).foldl Relay.step σ0) stalled
+    -- what was written towards a stalled client is not read yet: kept aside, shown when it resumes
+    let held := (st.heldModel.filterMap fun (d, b) =>
+      if stalled.contains d && (σ1.get d).isSome then some (d, b ++ sentTo σ1.out d) else none) ++
+      (stalled.filter fun d => (σ1.get d).isSome && !(st.heldModel.any (·.1 == d))).map fun d => (d, sentTo σ1.out d)
+    let visible := σ1.out.filter fun o => match o with | .sent d _ => !stalled.contains d | _ => true
+    let visible := match op with
+      | .resume k => if st.stalled.contains k then visible ++ [.sent k (pendingOf st.heldModel k)] else visible
+      | _ => visible
     let accepted := match op with
       | .acc k => if known k then st.accepted else k :: st.accepted
       | _ => st.accepted
     let selfClosed := match op with
       | .eof k | .rst k => if known k && !st.selfClosed.contains k then k :: st.selfClosed else st.selfClosed
       | _ => st.selfClosed
-    let model := renderLine (modelLine σ1 σ1.out selfClosed)
+    let model := renderLine (modelLine σ1 visible selfClosed)
     let model := if σ1.hung then "hang " ++ model else model
+    let st1 : St := { st with σ := σ1, accepted := accepted, selfClosed := selfClosed, stalled := stalled, heldModel := held }
     -- monitor
     match impl with
-    | none => ({ st with σ := σ1, accepted := accepted, selfClosed := selfClosed }, model, "ok")
+    | none => (st1, model, "ok")
     | some i =>
       if i.startsWith "crash:" then
-        ({ st with σ := σ1, accepted := accepted, selfClosed := selfClosed }, model, if which == .c26 then "viol:crash:the relay process died" else "ok")
+        (st1, model, if which == .c26 then "viol:crash:the relay process died" else "ok")
       else match parseImpl i with
-      | none => ({ st with σ := σ1, accepted := accepted, selfClosed := selfClosed }, model, "viol:unparsable-line")
+      | none => (st1, model, "viol:unparsable-line")
       | some l =>
         let conn0 := match op with
           | .acc k => if known k then st.implConnected else k :: st.implConnected
@@ -292,10 +330,26 @@ def step (which : Which) (st : St) (tok : List String) (_line : String) (impl : 
           | _ => st.implConnected
         let conn := conn0.filter fun c => !l.cl.contains c
         let verdict := match which with
-          | .c25 => judgeC25 st.implView st.pending op l
+          | .c25 => judgeC25 st.implView st.pending st.judged st.owed op l
           | .c26 => judgeC26 conn l
-        ({ σ := σ1, accepted := accepted, selfClosed := selfClosed, implView := l.view, implConnected := conn,
-           pending := updatePending st.pending op l }, model, verdict)
+        -- slow readers the monitor follows: bridged when they stalled, both ends still connected
+        let judged0 := match op with
+          | .stall k => if st.implView.isBridged k && !st.judged.contains k then k :: st.judged else st.judged
+          | .resume k => st.judged.filter (· != k)
+          | _ => st.judged
+        let judged := judged0.filter fun k => l.view.isBridged k
+        let owed0 := match op with
+          | .snd k p =>
+            match st.implView.partnerOf k with
+            | some t =>
+              if st.implView.isBridged k && st.judged.contains t then
+                (t, pendingOf st.owed t ++ p) :: st.owed.filter (·.1 != t)
+              else st.owed
+            | none => st.owed
+          | _ => st.owed
+        let owed := owed0.filter fun e => judged.contains e.1
+        ({ st1 with implView := l.view, implConnected := conn, pending := updatePending st.pending op l,
+                    judged := judged, owed := owed }, model, verdict)
 
 def machine (which : Which) : Machine St := { init := {}, step := step which }
 
